@@ -19,13 +19,13 @@ CLAIMS = {
              "power, scaling and in-service mask; ZIP voltage law has the same shape in the mismatch and in the "
              "result writer; branch types built equal branch types reported; accumulations into a bus vector with repeated "
              "indices use an unbuffered/unique-index form; the ZIP split has the same sibling form for loads and "
-             "asymmetric loads; the result shortcut is guarded by the flag that makes it valid. Also: in-service factor on every shunt term, total shared at a reference bus, refresh of the recycled DC cache.",
+             "asymmetric loads; the result shortcut is guarded by the flag that makes it valid. Also: in-service factor on every shunt term, total shared at a reference bus, refresh of the recycled DC cache. Round 3: xward slack share from the solved bus demand; generator results rewritten whenever the table has rows.",
              "ast table-agreement + dependence + monomial-shape analysis"),
     "C02": C("Monomial-shape abstract interpretation (base-power degree, physical unit, decimal scale, parallel "
              "degree) of every per-unit conversion and result formula of the documented element models; T/pi "
              "clause by dependence. A mis-scaled factor, dropped /parallel or wrong base exponent is reported; the "
              "phase shift enters with the sign of the tapped side in every branch of the shift computation; no "
-             "binary operation in the branch builders has two identical operands (copy/paste contradiction lint). Also: trafo3w side base min(sn) per winding pair, magnetising branch on the tap-adjusted LV voltage, refresh of the recycled DC cache.",
+             "binary operation in the branch builders has two identical operands (copy/paste contradiction lint). Also: trafo3w side base min(sn) per winding pair, magnetising branch on the tap-adjusted LV voltage, refresh of the recycled DC cache. Round 3: every tap changer type of the schema domain is matched; fast slack path guarded by GS and BS.",
              "abstract interpretation (monomial-shape domain) over ast"),
     "C03": C("In every branch result writer pl/ql is the positive sum of exactly the terminal power columns (AC) "
              "and zero-like (DC); slack power depends on demand and losses; slack power split over several slack "
@@ -33,7 +33,7 @@ CLAIMS = {
              "ast def-use / dependence analysis of result writers"),
     "C04": C("Setpoint columns flow into the ppc columns that fix them and results read back the element's own "
              "row; ZIP and shunt laws have the documented voltage degree; the Q-limit loop pins a violating "
-             "generator at the limit it violated; stepped shunts multiply power and step together. Also: Q-limit demand adjustment from the generator row, ordinary generators at a reference bus keep their set-point.",
+             "generator at the limit it violated; stepped shunts multiply power and step together. Also: Q-limit demand adjustment from the generator row, ordinary generators at a reference bus keep their set-point. Round 3: the all-reference bypass hands the complex set-point vector to pfsoln.",
              "dependence + monomial-shape analysis"),
     "C05": C("Base-power homogeneity and parallel-count homogeneity of every ppc writer and result reader; every "
              "ppc column that holds a bus number is re-mapped in _ppc2ppci; result writers index through lookups; "
@@ -46,13 +46,13 @@ CLAIMS = {
              "table agreement + ordering (dominators) on ast"),
     "C08": C("Pairing of auxiliary-element acquire/release on every normal and exceptional path of every calculation "
              "entry point; no reachable function stores into a schema column of a user table or drops/adds rows "
-             "unless restored (including the contingency outage flag); no in-place write through a view of a user table. Also: the release removes as many auxiliary rows as the acquire added (all dcline rows, two each).",
+             "unless restored (including the contingency outage flag); no in-place write through a view of a user table. Also: the release removes as many auxiliary rows as the acquire added (all dcline rows, two each). Round 3: auxiliary b2b VSC names from index labels on both sides; list cells of user tables not mutated.",
              "call graph + statement CFG with exceptional edges (PAIR), effect analysis, alias/view analysis"),
     "C09": C("Typestate of the cached per-network state: on every path of every calculation entry point no cached key "
              "(net._options, _pd2ppc_lookups[...], _is_elements(_final), _ppc*, _isolated_buses ...) is read before it has "
              "been rewritten in the same call (explicit recycle excepted and guarded); result tables re-initialised before "
              "the conversion and every written result table is one the mode re-initialises; start voltages taken from "
-             "result tables pass a NaN replacement; no memoisation on the calculation path. Also: auxiliary rows removed on every path, recycled run re-runs every flagged builder, init_* options read by the start-vector code only.",
+             "result tables pass a NaN replacement; no memoisation on the calculation path. Also: auxiliary rows removed on every path, recycled run re-runs every flagged builder, init_* options read by the start-vector code only. Round 3: as many auxiliary generators removed as added.",
              "interprocedural must-definedness (typestate) walk with constant propagation + taint analysis on ast"),
     "C10": C("Only the bookkeeping of slack weights is claimed: every table with a slack_weight column is written to SL_FAC "
              "with its in-service mask; weights and buses are paired by position through order-preserving steps; per-island "
@@ -60,13 +60,13 @@ CLAIMS = {
              "buses uses one row set; the mismatch carries + weights*slack over the ref rows and both Jacobian siblings get "
              "the weights; weighted buses/gens join ref/ref_gens; xward results add the variable power to the rows of the bus "
              "only, with scalar total weight and the demand as aggregated. The equal weighted deviation of the converged "
-             "solution is not decided.",
+             "solution is not decided. Round 3: in-service neighbours only and sign table {sgen} in the xward share; all further reference buses become PV; no bypass with distributed slack.",
              "ast dependence / provenance (order-preserving) / sibling-agreement analysis"),
     "C11": C("Only the bookkeeping of the three-phase power flow is claimed: element types mapped into the per-phase bus powers "
              "equal those reported in res_bus_3ph; symmetric elements contribute a third per phase with scaling, in-service "
              "mask and sign (-1 for *sgen) on the input and on the result side; phase letters / matrix rows / bus_pq columns "
              "agree between writers and readers; Tabc.T012 = I by constant folding and the transforms use their own matrix. "
-             "Agreement with the symmetric power flow is not decided.",
+             "Agreement with the symmetric power flow is not decided. Round 3: bus lookup before grouping of the phase powers; ext-grid admittances returned as stored.",
              "ast table / sibling agreement + constant folding"),
     "C12": C("Writer/reader table agreement: every (element, variable) ConstControl marks recyclable is read by a "
              "builder that the raised flag re-runs; every variable accepted for batch reading is provided by "
@@ -98,12 +98,12 @@ CLAIMS = {
     "C18": C("Unit, decimal scale and base-power degree 0 of every closed-form short-circuit result (ikss, skss, ip, "
              "rk/xk) and of the short-circuit admittances; literal factors (1/sqrt3, 1/2, sqrt3, sqrt2; 2ph = sqrt3/2 of "
              "3ph; 1ph z = 2 z1 + z0); kappa range by interval evaluation; per-bus locality of the formulas; agreement "
-             "of the inverse_y branches. Also: min-case temperature correction independent of the load-flow alpha; shared corrected network independent of the faulted-bus set.",
+             "of the inverse_y branches. Also: min-case temperature correction independent of the load-flow alpha; shared corrected network independent of the faulted-bus set. Round 3: converter-current angle before the fault impedance in both solver branches; factorisation of the ppci's own matrix; fault impedance if r or x.",
              "monomial-shape abstract interpretation + literal-factor and interval evaluation of closed forms + sibling cross-check"),
     "C19": C("Every numpy/scipy attribute chain evaluated on the state-estimation path exists in the installed "
              "library namespace (a missing name makes estimation fail for every input); the ten measurement blocks of z, "
              "covariance, index map, non-NaN masks, h(x) and Jacobian rows are the same kinds in the same order, each "
-             "selected with its own mask and the matching real/imag part. Also: duplicates merged by the weighted average before summation; no dead local stores in the estimation package.",
+             "selected with its own mask and the matching real/imag part. Also: duplicates merged by the weighted average before summation; no dead local stores in the estimation package. Also: current measurements related to the bus nominal voltage.",
              "ast attribute-chain resolution against installed stub files + sibling order/mask agreement",
              note="Trusted base: ast parser, the installed numpy/scipy .pyi/.py files as the namespace oracle. Decides API "
                   "existence and block agreement only, not the estimate."),
@@ -114,7 +114,7 @@ CLAIMS = {
     "C22": C("Foreign keys declared in network_schema are covered by the toolbox tables; every type code of a "
              "referencing table is handled by reindex_elements; every row drop in the toolbox is preceded by group "
              "detach and followed by result/reference cascade; re-indexing covers result tables; element-type codes are "
-             "compared exactly and mapped to the table they name. Also: all reference rewrites select by old_indices; cost rows dropped for every dropped element.",
+             "compared exactly and mapped to the table they name. Also: all reference rewrites select by old_indices; cost rows dropped for every dropped element. Also: drop_trafos gets the table its index came from.",
              "schema-vs-toolbox table agreement + ordering on ast"),
     "C23": C("Only the replacement family is claimed: every parameter of an element created by a replace_* function of the "
              "toolbox (line<->impedance, ward/xward -> internal elements or ward, ext_grid<->gen, gen<->sgen, load/sgen/"
@@ -123,7 +123,7 @@ CLAIMS = {
              "dropping and fusing are not decided. Also: asymmetry test of impedance->line, f_hz handed to sub-networks, characteristic id offset when merging.",
              "monomial-shape abstract interpretation (rows of itertuples/iterrows as table rows, create_* inlined)"),
     "C24": C("Sibling agreement of single and batch creators: std-type keys consumed, columns written, existence and "
-             "index checks called, duplicate-cost predicate structure incl. the power_type filter. Also: index checks dominate the return, optional columns decided over all types, explicit arguments override the type.",
+             "index checks called, duplicate-cost predicate structure incl. the power_type filter. Also: index checks dominate the return, optional columns decided over all types, explicit arguments override the type. Also: index check and row write of every creator name the same table.",
              "sibling cross-check of literal tables on ast"),
     "C25": C("Electrical keys of the built-in standard-type libraries are consumed by the creators; change_std_type "
              "iterates over the type's parameters and applies them unconditionally, replacing the std_type cell; list-valued "
@@ -167,7 +167,7 @@ CLAIMS = {
              "flexibility (the columns in_area compares with); apparent-power saturation selects p^2+q^2 > s^2 with "
              "s = saturate_sn_mva/sn_mva, clips the prioritised quantity into +-s and derives the other as "
              "sqrt(s^2 - clipped^2) afterwards; saturation follows the P/Q steps and precedes the sn_mva conversion; the targets "
-             "are written to the controller's own rows. Containment in run-time polygons and the damping are not decided.",
+             "are written to the controller's own rows. Containment in run-time polygons and the damping are not decided. Round 3: clamp entered when not all elements are inside; single exit of the apparent-power step.",
              "ast mask-agreement / ordering / bound-pairing analysis"),
     "C34": C("Information-flow argument: 'was the argument passed' must be computed from information that differs "
              "between runpp(net) and runpp(net, algorithm='nr'); checks signature defaults, the passed-parameter "
